@@ -16,6 +16,15 @@ def scan_assumptions(verif, jobs):
     for j in jobs:
         h = os.path.join(verif, "harness", j["harness"])
         files = [h] + [os.path.join(verif, "contracts", c) for c in j.get("contracts", [])]
+        # contract headers include each other: follow #include "x.h" inside /verif/contracts
+        k = 0
+        while k < len(files):
+            f0 = files[k]; k += 1
+            if os.path.exists(f0) and f0.endswith(".h"):
+                for inc in re.findall(r'#include\s+"([\w.]+\.h)"', open(f0, encoding="latin-1").read()):
+                    cand = os.path.join(verif, "contracts", inc)
+                    if os.path.exists(cand) and cand not in files:
+                        files.append(cand)
         for f in files:
             if f in seen or not os.path.exists(f):
                 continue
